@@ -193,6 +193,10 @@ func runC01(c *core.Ctx) {
 	// a.html exists next to the (pathless) templates, so that include / RenderFile get past the read
 	if dir := filepath.Join(c.WorkDir, fmt.Sprintf("c01-%02d", c.Shard)); os.MkdirAll(dir, 0o755) == nil && os.Chdir(dir) == nil {
 		os.WriteFile(filepath.Join(dir, "a.html"), []byte("[a.html {{ x }} {{ xlocal }}{% if t %} {{ s | upcase }}{% endif %}]"), 0o644)
+		// files that include themselves, directly and through each other
+		os.WriteFile(filepath.Join(dir, "self.html"), []byte("s{% include 'self.html' %}e"), 0o644)
+		os.WriteFile(filepath.Join(dir, "p.html"), []byte("{% for i in (1..2) %}{% include 'q.html' %}{% endfor %}"), 0o644)
+		os.WriteFile(filepath.Join(dir, "q.html"), []byte("{% if t %}{% include 'p.html' %}{% endif %}{% xfile p.html %}"), 0o644)
 		defer os.RemoveAll(dir)
 	}
 	x.typeSequences()
@@ -411,6 +415,8 @@ func (x *c01) hostile() {
 		"{% tablerow i in (1..4611686018427387904) limit: 1 %}{{ i }}{% endtablerow %}", "{{ (1..4294967296) | concat: a | size }}", "{{ (1..9223372036854775807) | map: 'x' }}{{ (1..9223372036854775807) | uniq }}"} {
 		inject = append(inject, s)
 	}
+	// include cycles: must end in an error, not in stack exhaustion
+	inject = append(inject, "{% include 'self.html' %}", "a{% include 'p.html' %}b", "{% xfile self.html %}", "{% for i in (1..3) %}{% include 'self.html' %}{% endfor %}", "{% capture c %}{% include 'q.html' %}{% endcapture %}{{ c | size }}", "{% xbfile self.html %}{% endxbfile %}")
 	env := hostileEnv
 	// frozen regression inputs: every source that ever produced a genuine violation (or that the development-time
 	// fuzzer found interesting) stays in /verif/corpus/C01 and is replayed first
